@@ -166,3 +166,60 @@ def h_expand(k0: int, k1: int, k2: int, fault: int, fnode: int) -> str:
         if snap(src) != s_before:
             return "editing an expanded copy changed the referenced element"
     return ""
+
+
+def h_expand_many(fault: int, fpos: int, late: bool) -> str:
+    """
+    pre: 0 <= fault <= 2 and 0 <= fpos <= 5
+    post: _ == ""
+    """
+    # six referrers (alternating plain / with trailing role, five naming source A and one naming B) - many references to ONE id
+    global LATE
+    saved = LATE
+    try:
+        LATE = bool(late)
+        kinds = [1, 2, 1, 2, 3, 2]
+        fault = cint(fault, 3)
+        fpos = cint(fpos, 6)
+        ds, a, b, referrers = _tree(kinds, fault if fault != 2 else 2, fpos)
+        before = snap(ds)
+        store_before = store_keys()
+        a_snap, b_snap = snap(a), snap(b)
+        try:
+            references.expand(ds)
+        except ValueError:
+            if fault == 0:
+                return "expand raised ValueError although every reference resolves"
+            if snap(ds) != before or store_keys() != store_before:
+                return "expand raised ValueError but left the tree or the registry modified"
+            return ""
+        except Exception as e:
+            return "expand raised %s" % type(e).__name__
+        if fault != 0:
+            return "expand did not raise on a %s" % ("dangling reference" if fault == 1 else "duplicated id")
+        if snap(a) != a_snap or snap(b) != b_snap:
+            return "a referenced element was modified"
+        seen = set()
+        for r, k in referrers:
+            src = a if k in (1, 2) else b
+            want = [snap(c, ids=False) for c in src.children]
+            got = [snap(c, ids=False) for c in r.children[:len(want)]]
+            if got != want:
+                return "referrer %s: expansion %r differs from the source's children" % (r.id, [c.name for c in r.children])
+            tail_names = [c.name for c in r.children[len(want):]]
+            if tail_names != (["role"] if k in (2, 4) else []):
+                return "referrer %s: trailing children %r" % (r.id, tail_names)
+            for c in r.children[:len(want)]:
+                for n in nodes(c):
+                    if id(n) in seen or n.id in store_before:
+                        return "copies are shared between referrers or reuse ids"
+                    seen.add(id(n))
+                    if Node.get_node_instance(n.id) is not n:
+                        return "copied node not registered"
+        left = []
+        ds.find_all_descendants("references", left)
+        if left:
+            return "references node(s) left behind"
+        return snap_links(ds)
+    finally:
+        LATE = saved
